@@ -1162,7 +1162,8 @@ class Sim:
                 # ordered iterator: the failure of part k shows after parts 0..k-1;
                 # a failure that never shows leaves the job unfinished (final checks)
                 tp = [i for i, p in j.parts.items()
-                      if p['ack_proc'] and self.by_pid[p['ack_proc'][0]].job_terminated]
+                      if p['ack_proc'] and self.by_pid[p['ack_proc'][0]].job_terminated
+                      and not p['ready_proc'] and not p.get('lost_done')]
                 if tp and len(j.yielded) < min(tp) + 1:
                     j.must = None
                     self.stat('imap_loss_waits_for_earlier_parts')
